@@ -46,6 +46,16 @@ def gen_problem(rng, tier):
     k = 1 if r < 0.7 else 0 if r < 0.8 else 2 if r < 0.95 else 3
     if n == 5 and k == 2:
         k = 1     # keeps the answer space (rows with exactly k stars) below 5**5
+    return _gen(rng, n, k)
+
+
+def extra_program_problems(rng):
+    """Larger boards for the program correspondence only (nothing is enumerated there; the board is square by construction):
+    10 x 10 with two stars, and 17 x 17 (more than 256 cells) with three stars / 16 x 16 with one."""
+    return [_gen(rng, 10, 2), _gen(rng, 17, 3), _gen(rng, 16, 1)]
+
+
+def _gen(rng, n, k):
     style = rng.random()
     if style < 0.6:
         blocks = _grow_regions(rng, n, n)                       # n connected regions
